@@ -562,8 +562,14 @@ func (s *Stream) cleanup() {
 	s.mu.Lock()
 	defer s.mu.Unlock()
 	s.closed = true
+	// the receive service may still be inside handlePacket: release the buffer under the
+	// receive-side lock and mark the stream so a late packet is dropped instead of being
+	// delivered as a message made of its tail only
+	s.rmu.Lock()
+	s.rclosed = true
 	s.msgAssembler = nil // Release the buffer
-	close(s.sendQueue)   // Close send channel
+	s.rmu.Unlock()
+	close(s.sendQueue) // Close send channel
 }
 
 // IsSelf() returns if the peer address public key equals the self public key
